@@ -309,7 +309,6 @@ func (x *c02Exec) execute(kind string, cctx []c02Ctx) bool {
 	return true
 }
 
-
 // renderOut: the contexts of one execution as the hook would read them from the context file.
 func (x *c02Exec) renderOut(out []bctx.BindingContext) []string {
 	var got []string
@@ -745,6 +744,11 @@ func c02ExecCase(c *Case, rng *Rng, preset []c02Bind) {
 	}
 	if grouped {
 		c.Note("exec:group")
+	}
+	for _, b := range x.binds {
+		if b.typ == "k" && b.spec.flt == 1 {
+			c.Note("exec:" + b.spec.theProg().bucket())
+		}
 	}
 	if unnamedSched(x.binds) {
 		c.Note("exec:same-named-schedule-bindings")
